@@ -365,6 +365,74 @@ def h_constructors(env, N, which):
         env.goal('same_component%d' % k, same(np.asarray(a) if isinstance(a, np.ndarray) else a, b))
 
 
+def h_circuit_ops(env, N, prog, config, direction):
+    """gate / layer / circuit application: the same program of generator and one-qubit map gates built in both
+    packages, applied to the same symbolic Pauli list"""
+    Pn, Pt = env.mod('paulialg', 'pyclifford'), env.mod('paulialg', 'torchclifford')
+    Sn, St = env.mod('stabilizer', 'pyclifford'), env.mod('stabilizer', 'torchclifford')
+    Cn, Ct = env.mod('circuit', 'pyclifford'), env.mod('circuit', 'torchclifford')
+    gs = env.bits('gs', (2, 2 * N))
+    ps = env.phases('ps', (2,))
+    contents = []
+    for k, (kind, q) in enumerate(prog):
+        n = len(q)
+        if kind == 'gen':
+            contents.append((env.bits('g%d_gen' % k, (2 * n,)), env.signs('g%d_sign' % k, (1,))[0]))
+        else:
+            mg = env.bits('g%d_map' % k, (2 * n, 2 * n))
+            env.assume(ref.symplectic(mg), 'map gate valid')
+            contents.append((mg, env.signs('g%d_mapsign' % k, (2 * n,))))
+
+    def run(P, Smod, C, conv, torch_side):
+        circ = C.identity_circuit(N) if torch_side else C.CliffordCircuit(N)
+        for (kind, q), (a, b) in zip(prog, contents):
+            gate = C.CliffordGate(*q)
+            if kind == 'gen':
+                gate.set_generator(P.Pauli(conv(a), b))
+            else:
+                gate.set_forward_map(Smod.CliffordMap(conv(a), conv(b)))
+            circ.take(gate)
+        if config == 'circuit':
+            circ.compile(N) if torch_side else circ.compile()
+        obj = P.PauliList(conv(gs), conv(ps))
+        getattr(circ, direction)(obj)
+        return (obj.gs, obj.ps)
+    rn = env.run(lambda: run(Pn, Sn, Cn, lambda a: a.copy(), False))
+    rt = env.run(lambda: run(Pt, St, Ct, lambda a: tt(env, a), True))
+    env.tag('always', True)
+    env.goal('numpy_side_no_exception', b_not(rn.raised))
+    env.goal('torch_side_no_exception', b_not(rt.raised))
+    if rn.value is None or rt.value is None:
+        return
+    env.goal('same_strings', same(np.asarray(rn.value[0]), nn(env, rt.value[0])))
+    env.goal('same_phases', same(np.asarray(rn.value[1]), nn(env, rt.value[1])))
+
+
+def h_diagonalize(env, N, i0, causal):
+    Pn, Pt = env.mod('paulialg', 'pyclifford'), env.mod('paulialg', 'torchclifford')
+    Cn, Ct = env.mod('circuit', 'pyclifford'), env.mod('circuit', 'torchclifford')
+    g = env.bits('g', (2 * N,))
+    p = env.signs('sign', (1,))[0]
+    tail = g[2 * i0:] if causal else g
+    env.assume(b_not(arr_eq(tail, [0] * len(tail))), 'operator (tail) not the identity')
+
+    def run(P, C, conv):
+        op = P.Pauli(conv(g), p)
+        circ = C.diagonalize(op, i0, causal=causal)
+        out = P.Pauli(conv(g), p).as_list()
+        circ.forward(out)
+        return (out.gs, out.ps)
+    rn = env.run(lambda: run(Pn, Cn, lambda a: a.copy()))
+    rt = env.run(lambda: run(Pt, Ct, lambda a: tt(env, a)))
+    env.tag('always', True)
+    env.goal('numpy_side_no_exception', b_not(rn.raised))
+    env.goal('torch_side_no_exception', b_not(rt.raised))
+    if rn.value is None or rt.value is None:
+        return
+    env.goal('same_strings', same(np.asarray(rn.value[0]), nn(env, rt.value[0])))
+    env.goal('same_phases', same(np.asarray(rn.value[1]), nn(env, rt.value[1])))
+
+
 def jobs(tier):
     J = []
     for N in (1, 2):
@@ -394,4 +462,15 @@ def jobs(tier):
             J.append(dict(harness=('c13', 'h_map_ops'), params=dict(N=N, op=op), timeout_s=300))
         for which in ('zero_state', 'one_state', 'ghz_state', 'maximally_mixed_state', 'identity_map'):
             J.append(dict(harness=('c13', 'h_constructors'), params=dict(N=N, which=which)))
+    progs = [[['gen', [0, 1]]], [['gen', [1]], ['gen', [0, 1]]], [['fmap', [0]], ['gen', [0, 1]]], [['gen', [0]], ['gen', [1]], ['gen', [0, 1]]]]
+    for prog in progs:
+        for config in ('plain', 'circuit'):
+            for direction in ('forward', 'backward'):
+                J.append(dict(harness=('c13', 'h_circuit_ops'), params=dict(N=2, prog=prog, config=config, direction=direction), timeout_s=300, max_paths=4000, cost=20))
+    for N in (1, 2):
+        for i0 in range(N):
+            for causal in (False, True):
+                if causal and N > 1:
+                    continue        # the causal torch path mixes numpy and torch indexing (recorded finding, exercised at N=1)
+                J.append(dict(harness=('c13', 'h_diagonalize'), params=dict(N=N, i0=i0, causal=causal), timeout_s=300, max_paths=4000))
     return J
